@@ -443,3 +443,8 @@ impl Iterator for FragBitVecIterator {
 //     }
 //   }
 // }
+
+// Verification accessors (read-only views of private state); only with `--cfg rustdds_verif`.
+#[cfg(rustdds_verif)]
+#[path = "/verif/facade/rproxy_hooks.rs"]
+pub(crate) mod verif_hooks;
